@@ -25,7 +25,8 @@ def shell_functions(sh):
 def function_set(shells):
     s = set()
     for sh in shells:
-        s.update(shell_functions(sh))
+        # a contraction whose coefficients are all zero is no function (the Gallina FS ignores it in the same way)
+        s.update(f for f in shell_functions(sh) if f[1])
     return s
 
 
